@@ -311,7 +311,33 @@ func R15() Rule {
 			retWritten map[bool][]bool
 			plainRet   bool // some exit is not a `return true/false`
 		}
-		analyse := func(h *handlerFn) exitInfo {
+		// assumeObj/assumeVal: analyse under the assumption that the (never assigned) boolean parameter
+		// assumeObj has the value assumeVal: branches on it are taken one way only and `return p` is a
+		// literal return (`func respondIf(w, missing bool) bool { if missing { write }; return missing }`)
+		analyse := func(h *handlerFn, assumeObj types.Object, assumeVal bool) exitInfo {
+			deadEdge := func(pb, b *cfg.Block) bool {
+				if assumeObj == nil || len(pb.Succs) != 2 || pb.Succs[0] == pb.Succs[1] || len(pb.Nodes) == 0 {
+					return false
+				}
+				cond, ok := pb.Nodes[len(pb.Nodes)-1].(ast.Expr)
+				if !ok {
+					return false
+				}
+				neg := false
+				cond = ast.Unparen(cond)
+				if u, isU := cond.(*ast.UnaryExpr); isU && u.Op == token.NOT {
+					neg, cond = true, ast.Unparen(u.X)
+				}
+				id, isId := cond.(*ast.Ident)
+				if !isId || info.Uses[id] != assumeObj {
+					return false
+				}
+				taken := 1
+				if assumeVal != neg {
+					taken = 0
+				}
+				return pb.Succs[taken] != b
+			}
 			g := graphs[h]
 			in := make([]int8, len(g.Blocks)) // -1 unknown, 0 false, 1 true
 			for i := range in {
@@ -339,7 +365,7 @@ func R15() Rule {
 						v = 0
 					} else {
 						for _, p := range preds[b.Index] {
-							if outv[p] == -1 {
+							if outv[p] == -1 || deadEdge(g.Blocks[p], b) {
 								continue
 							}
 							pv := outv[p]
@@ -378,9 +404,13 @@ func R15() Rule {
 				lit := false
 				if len(b.Nodes) > 0 {
 					if rs, isRet := b.Nodes[len(b.Nodes)-1].(*ast.ReturnStmt); isRet && len(rs.Results) >= 1 {
-						if bv, isB := boolLit(rs.Results[len(rs.Results)-1]); isB {
+						last := rs.Results[len(rs.Results)-1]
+						if bv, isB := boolLit(last); isB {
 							lit = true
 							res.retWritten[bv] = append(res.retWritten[bv], outv[b.Index] == 1)
+						} else if id, isId := ast.Unparen(last).(*ast.Ident); isId && assumeObj != nil && info.Uses[id] == assumeObj {
+							lit = true
+							res.retWritten[assumeVal] = append(res.retWritten[assumeVal], outv[b.Index] == 1)
 						}
 					}
 				}
@@ -410,7 +440,19 @@ func R15() Rule {
 		for round, changed := 0, true; changed && round < 20; round++ {
 			changed = false
 			for _, h := range handlers {
-				r := analyse(h)
+				r := analyse(h, nil, false)
+				if !r.ok && r.plainRet && singleBool(h) {
+					// a helper that returns one of its own boolean parameters
+					for _, p := range passThroughParams(info, h) {
+						r1, r0 := analyse(h, p, true), analyse(h, p, false)
+						if r1.plainRet || r0.plainRet {
+							continue
+						}
+						r.plainRet = false
+						r.retWritten = map[bool][]bool{true: append(r1.retWritten[true], r0.retWritten[true]...), false: append(r1.retWritten[false], r0.retWritten[false]...)}
+						break
+					}
+				}
 				results[h] = r
 				if always[h] != r.ok {
 					always[h] = r.ok
@@ -530,6 +572,49 @@ func R15() Rule {
 			c.Unknown("R15", "floor/handlers", token.NoPos, "only %d handlers found", len(handlers))
 		}
 	}}
+}
+
+// passThroughParams: the boolean parameters of h that its body never assigns or takes the address of.
+func passThroughParams(info *types.Info, h *handlerFn) []types.Object {
+	var out []types.Object
+	if h.typ.Params == nil {
+		return nil
+	}
+	for _, f := range h.typ.Params.List {
+		for _, nm := range f.Names {
+			o := info.Defs[nm]
+			if o == nil {
+				continue
+			}
+			if bt, ok := o.Type().Underlying().(*types.Basic); !ok || bt.Kind() != types.Bool {
+				continue
+			}
+			written := false
+			ast.Inspect(h.body, func(n ast.Node) bool {
+				switch x := n.(type) {
+				case *ast.AssignStmt:
+					for _, l := range x.Lhs {
+						if id, ok := ast.Unparen(l).(*ast.Ident); ok && info.Uses[id] == o {
+							written = true
+						}
+					}
+				case *ast.UnaryExpr:
+					if id, ok := ast.Unparen(x.X).(*ast.Ident); ok && x.Op == token.AND && info.Uses[id] == o {
+						written = true
+					}
+				case *ast.IncDecStmt:
+					if id, ok := ast.Unparen(x.X).(*ast.Ident); ok && info.Uses[id] == o {
+						written = true
+					}
+				}
+				return true
+			})
+			if !written {
+				out = append(out, o)
+			}
+		}
+	}
+	return out
 }
 
 func endsInNoReturn(info *types.Info, b *cfg.Block) bool {
